@@ -97,6 +97,7 @@ fn main() {
                 ctx.max_fail_lines = n.parse().unwrap_or(40);
             }
             let opts = replay::Opts { serde: args.iter().any(|a| a == "--serde") };
+            ctx.serde = opts.serde;
             let current = Arc::new(std::sync::Mutex::new(String::new()));
             start_watchdog(Duration::from_secs(10), current.clone());
             let file = std::fs::File::open(&path).unwrap_or_else(|e| {
@@ -115,6 +116,7 @@ fn main() {
                 ctx.case = case.clone();
                 replay::run_case(&mut ctx, &case, &opts);
             }
+            replay::finish_pool(&mut ctx);
             PROGRESS.store(u64::MAX, Ordering::Relaxed);
             println!("{}", ctx.summary());
         },
